@@ -127,9 +127,16 @@ queue_init(void)
 
 #define WRITE(buf, len) \
 		do { \
-			if ( (rc = write(queuefd_hdr, buf, len)) < 0 ) { \
+			const ssize_t _wlen = (len); \
+			const ssize_t _wret = write(queuefd_hdr, buf, _wlen); \
+			if (_wret != _wlen) { \
+				/* a short write means the envelope is incomplete */ \
+				if (_wret >= 0) \
+					errno = EPIPE; \
+				rc = -1; \
 				goto err_write; \
 			} \
+			rc = 0; \
 		} while (0)
 
 /**
